@@ -24,6 +24,10 @@ class Unsupported(Exception):
     pass
 
 
+PACKED_INDEX_ERROR = -1  # value of table[index] when the index is out of range
+PACKED_RANGE_ERROR = -2  # value of Struct.pack(v) when v does not fit
+
+
 def _is_z3(v: Any) -> bool:
     return isinstance(v, z3.ExprRef)
 
@@ -145,7 +149,33 @@ class Evaluator:
             if a.sort() != b.sort():
                 a, b = _to_real(a), _to_real(b)
             return z3.If(c, a, b)
+        if isinstance(node, ast.Subscript) and isinstance(node.value, ast.Name) and hasattr(self.module, node.value.id):
+            # table[index] for a module-level tuple / list of packed big-endian byte strings (pre-packed lookup tables): the entry as
+            # an integer; PACKED_INDEX_ERROR when the index is out of range (Python's negative indices included)
+            table = getattr(self.module, node.value.id)
+            if isinstance(table, (tuple, list)) and table and all(isinstance(e, bytes) for e in table):
+                idx = self.ev(node.slice, env)
+                n = len(table)
+                arr = z3.K(z3.IntSort(), z3.IntVal(PACKED_INDEX_ERROR))
+                for i, e in enumerate(table):
+                    arr = z3.Store(arr, i, int.from_bytes(e, 'big'))
+                if not _is_z3(idx):
+                    return int.from_bytes(table[idx], 'big')
+                return z3.If(z3.And(idx >= 0, idx < n), z3.Select(arr, idx), z3.If(z3.And(idx < 0, idx >= -n), z3.Select(arr, idx + n), z3.IntVal(PACKED_INDEX_ERROR)))
+            raise Unsupported('subscript')
         if isinstance(node, ast.Call):
+            if isinstance(node.func, ast.Name) and hasattr(self.module, node.func.id) and len(node.args) == 1:
+                import struct as _struct
+
+                target = getattr(self.module, node.func.id)
+                st = getattr(target, '__self__', None)
+                if isinstance(st, _struct.Struct) and getattr(target, '__name__', '') == 'pack' and st.format in ('>B', '>H', '>L', '!B', '!H', '!L'):
+                    # Struct('>H').pack(v): the big-endian integer itself when it fits, PACKED_RANGE_ERROR (struct.error) otherwise
+                    bits = {'B': 8, 'H': 16, 'L': 32}[st.format[-1]]
+                    v = self.ev(node.args[0], env)
+                    if not _is_z3(v):
+                        return v if 0 <= v < 2**bits else PACKED_RANGE_ERROR
+                    return z3.If(z3.And(v >= 0, v < 2**bits), v, z3.IntVal(PACKED_RANGE_ERROR))
             if isinstance(node.func, ast.Name) and node.func.id == 'int' and len(node.args) == 1:
                 v = self.ev(node.args[0], env)
                 if _is_z3(v) and v.sort() == z3.RealSort():
